@@ -1,12 +1,23 @@
 #!/usr/bin/env python3
 """Run every registered quick check against every seeded mutant (scratch copy of /repo, evidence redirected) and write
-seeded/matrix.json: which checks catch which changes.   tools/seed_matrix.py [ids...]"""
-import json, os, re, subprocess, sys, tempfile, shutil, time
+seeded/matrix.json: which checks catch which changes.
+   tools/seed_matrix.py [--related | --own] [--jobs N] [--fresh] [ids...]
+   --related: own check + the checks mapped to the touched files + catch-alls;  --own: own check only;
+   --jobs N: N mutants at a time;  --fresh: start from an empty matrix instead of updating seeded/matrix.json"""
+import json, os, re, subprocess, sys, tempfile, shutil, time, threading
+from concurrent.futures import ThreadPoolExecutor
 HERE = os.path.dirname(os.path.dirname(os.path.abspath(__file__)))
 os.chdir(HERE)
 checks = [c["property_id"] for c in json.load(open("MANIFEST.json"))["checks"]]
 RELATED = "--related" in sys.argv
-sys.argv = [a for a in sys.argv if a != "--related"]
+OWN = "--own" in sys.argv
+FRESH = "--fresh" in sys.argv
+JOBS = 1
+if "--jobs" in sys.argv:
+    i = sys.argv.index("--jobs")
+    JOBS = int(sys.argv[i + 1])
+    del sys.argv[i:i + 2]
+sys.argv = [a for a in sys.argv if a not in ("--related", "--own", "--fresh")]
 ids = sys.argv[1:] or sorted(os.listdir("seeded"))
 sys.path.insert(0, os.path.join(HERE, "tools"))
 import automutate as _am
@@ -29,8 +40,11 @@ def related_checks(mid):
     return [c for c in checks if c in rel]
 ids = [i for i in ids if i != "not-kept" and os.path.exists("seeded/%s/patch.diff" % i)]
 out_path = "seeded/matrix.json"
-matrix = json.load(open(out_path)) if os.path.exists(out_path) else {}
-for mid in ids:
+matrix = json.load(open(out_path)) if os.path.exists(out_path) and not FRESH else {}
+lock = threading.Lock()
+
+
+def one(mid):
     w = tempfile.mkdtemp(prefix="libeav-matrix-")
     try:
         r = os.path.join(w, "r")
@@ -39,10 +53,12 @@ for mid in ids:
         subprocess.run(["git", "init", "-q", "."], cwd=r)
         a = subprocess.run(["git", "apply", "--whitespace=nowarn", os.path.abspath("seeded/%s/patch.diff" % mid)], cwd=r)
         if a.returncode != 0:
-            matrix[mid] = {"error": "patch does not apply"}
-            continue
+            with lock:
+                matrix[mid] = {"error": "patch does not apply"}
+            print(mid, "PATCH DOES NOT APPLY", flush=True)
+            return
         row = {}
-        for p in (related_checks(mid) if RELATED else checks):
+        for p in ([mid.split("-")[0]] if OWN else related_checks(mid) if RELATED else checks):
             env = dict(os.environ, VERIF_REPO=r, VERIF_EVIDENCE_DIR=os.path.join(w, "ev"), VERIF_REPLAY_DIR=os.path.join(w, "rp"), VERIF_SEED="1")
             t0 = time.time()
             pr = subprocess.run(["./check", p, "--tier", "quick"], stdout=subprocess.PIPE, stderr=subprocess.STDOUT, env=env)
@@ -50,9 +66,14 @@ for mid in ids:
             keys = re.findall(r"^  key=(\S+)", txt, re.M)
             row[p] = {"exit": pr.returncode, "violations": txt.count("\nVIOLATION ") + txt.startswith("VIOLATION "), "first_keys": keys[:3], "tail": txt[-400:] if pr.returncode == 2 else "",
                       "wall_s": round(time.time() - t0, 1)}
-        matrix[mid] = row
-        json.dump(matrix, open(out_path, "w"), indent=1, sort_keys=True)
+        with lock:
+            matrix[mid] = row
+            json.dump(matrix, open(out_path, "w"), indent=1, sort_keys=True)
         caught = [p for p in row if row[p]["exit"] == 1]
         print(mid, "caught by", caught, "inconclusive:", [p for p in row if row[p]["exit"] == 2], "of", len(row), flush=True)
     finally:
         shutil.rmtree(w, ignore_errors=True)
+
+
+with ThreadPoolExecutor(JOBS) as ex:
+    list(ex.map(one, ids))
